@@ -235,7 +235,7 @@ def _check_block(ctx, case, mdl, lo, hi, calls, replies, dead, authed, s, wire):
         return False
     # (g) no early "too many failures" disconnect
     if dead and not last["dead"] and wire.get("disc") == 14 and wire["fails"] < 10:
-        ctx.violation("disconnect-before-ten-failures", "after-%d-failures" % wire["fails"], sub, detail)
+        ctx.violation("disconnect-before-ten-failures", "no-more-auth-methods", sub, "only %d non-partial failures were answered; " % wire["fails"] + detail)
         return False
     if got != exp and not (dead and not last["dead"]):
         ctx.inconc("callback-sequence-differs-from-model")
@@ -280,7 +280,7 @@ def _run(ctx, case, mdl, reqs, s, classes):
 
 def run(ctx):
     ctx.set_budget(75, 780)
-    ctx.explore(cases(), lambda c: run_case(ctx, c), ctx.scale(450, 3200), shrink=False)
+    ctx.explore(cases(), lambda c: run_case(ctx, c), ctx.scale(500, 4500), shrink=False)
     for k in ("model:cap", "model:username", "model:service"):
         if ctx.classes.get(k, 0) == 0 and not ctx.budget_hit and not ctx.unknown:
             raise core.HarnessError("generator never reached %s" % k)
